@@ -90,6 +90,41 @@ func main() {
 				}
 			}
 		}
+		// the bound around a point holds the point and everything within the distance (away from the poles and
+		// the antimeridian, where the box degenerates to the whole longitude range); padding only grows a bound
+		for _, d := range []float64{1, 1e3, 5e4, 1e6} {
+			bb := geo.NewBoundAroundPoint(p, d)
+			if math.Abs(p[1]) < 75 && math.Abs(p[0]) < 150 {
+				if !bb.Contains(p) {
+					c.Failf("bound-around", "NewBoundAroundPoint(%v, %v) = %v does not contain its centre", p, d, bb)
+				}
+				for _, b := range bearings {
+					q := geo.PointAtBearingAndDistance(p, b, d)
+					if !bb.Pad(1e-9).Contains(q) {
+						c.Failf("bound-around", "NewBoundAroundPoint(%v, %v) = %v does not contain %v, which lies %v m from the centre on bearing %v", p, d, bb, q, d, b)
+						break
+					}
+				}
+			}
+			small := orb.Bound{Min: p, Max: orb.Point{math.Min(p[0]+0.5, 180), math.Min(p[1]+0.25, 90)}}
+			pad := geo.BoundPad(small, d)
+			if pad.Min[0] > small.Min[0] || pad.Min[1] > small.Min[1] || pad.Max[0] < small.Max[0] || pad.Max[1] < small.Max[1] ||
+				pad.Min[0] < -180 || pad.Max[0] > 180 || pad.Min[1] < -90 || pad.Max[1] > 90 {
+				c.Failf("bound-pad", "BoundPad(%v, %v) = %v does not contain the bound or leaves the world", small, d, pad)
+			}
+			if math.Abs(p[1]) < 89 && pad.Max[1] < 90 && pad.Min[1] > -90 {
+				if dy := (pad.Max[1] - small.Max[1]) * 111131.75; math.Abs(dy-d) > 1e-6*d+1e-6 {
+					c.Failf("bound-pad", "BoundPad(%v, %v) moves the top edge by %v m", small, d, dy)
+				}
+			}
+			if h := geo.BoundHeight(small); math.Abs(h-111131.75*(small.Max[1]-small.Min[1])) > 1e-6 {
+				c.Failf("bound-size", "BoundHeight(%v) = %v", small, h)
+			}
+			mid := (small.Min[1] + small.Max[1]) / 2
+			if w := geo.BoundWidth(small); math.Abs(w-geo.Distance(orb.Point{small.Min[0], mid}, orb.Point{small.Max[0], mid})) > 1e-6 {
+				c.Failf("bound-size", "BoundWidth(%v) = %v is not the distance between its sides at mid latitude", small, w)
+			}
+		}
 		// along a line: the point at distance d along a two-segment line is d from the start when d is within the first segment
 		ls := orb.LineString{p, geo.PointAtBearingAndDistance(p, 30, 5e4)}
 		if q, _ := geo.PointAtDistanceAlongLine(ls, 2e4); math.Abs(geo.DistanceHaversine(p, q)-2e4) > 1e-3 {
